@@ -112,8 +112,9 @@ def scanNext (disableNorm : Bool) (B : Bytes) : Scan :=
         let extra := contExtra (B1.drop (n1 + 1))
         let nEnd := n1 + extra
         let region := trimValue (B1.take nEnd)
-        -- multi-line value: CR/LF removed, tab at a line start → space, blanks in front dropped
-        let value := if extra > 0 then (normValAux false region).dropWhile (· == 32) else region
+        -- multi-line value: CR/LF removed, tab at a line start → space, blanks in front and at the end dropped
+        let value := if extra > 0 then
+            (((normValAux false region).dropWhile (· == 32)).reverse.dropWhile (· == 32)).reverse else region
         .kv key value (B1.drop (nEnd + 1)) (n + 1 + sp + nEnd + 1)
 
 /-- `bytesconv.ParseUintBuf` with Go's 64-bit `int`: `(value, consumed)` or an error -/
